@@ -19,6 +19,9 @@ import (
 
 type c22State struct {
 	everRef map[storage.SeriesRef]string // ref -> series it was first returned for (since last restart)
+	// series whose cached reference was no longer in the head (evicted / garbage-collected) when a
+	// clean restart took a memory snapshot without the fast-startup state file
+	goneAtSnapRestart map[string]bool
 }
 
 func c22New(r *vx.Run, c dbxCfg, name string) *dbx {
@@ -27,7 +30,7 @@ func c22New(r *vx.Run, c dbxCfg, name string) *dbx {
 	x.ident = true
 	x.syncEvicted = true
 	x.refs = map[string]storage.SeriesRef{}
-	st := &c22State{everRef: map[storage.SeriesRef]string{}}
+	st := &c22State{everRef: map[storage.SeriesRef]string{}, goneAtSnapRestart: map[string]bool{}}
 	x.extraOps = func(x *dbx) []string {
 		ops := []string{
 			"app/s1/F+1/f", "app/s2/F+1/f", "app/s3/F+1/f",
@@ -68,6 +71,13 @@ func c22New(r *vx.Run, c dbxCfg, name string) *dbx {
 			return true, nil
 		case "reopen":
 			st.everRef = map[storage.SeriesRef]string{}
+			if x.cfg.Snapshot && !x.cfg.FastStartup {
+				for sk, ref := range x.refs {
+					if ref != 0 && x.db.Head().series.getByID(chunksHeadSeriesRef(ref)) == nil {
+						st.goneAtSnapRestart[sk] = true
+					}
+				}
+			}
 			return false, nil
 		case "unclean":
 			// process killed: the directory as it is now is what the next start sees
@@ -99,11 +109,20 @@ func c22CheckRefs(x *dbx, st *c22State) *vx.Fail {
 			continue
 		}
 		if prev, ok := st.everRef[ref]; ok && prev != sk {
+			if st.goneAtSnapRestart[sk] || st.goneAtSnapRestart[prev] {
+				return vx.Failf("evicted-series-ref-reissued-after-snapshot-restart", "reference %d was returned for %s and now for %s (one of them evicted before a restart from a memory snapshot)", ref, prev, sk)
+			}
 			return vx.Failf("series-ref-reused-for-other-labels", "reference %d was returned for %s and now for %s", ref, prev, sk)
 		}
 		st.everRef[ref] = sk
 		// the reference resolves to the right labels in the head
 		if s := x.db.Head().series.getByID(chunksHeadSeriesRef(ref)); s != nil && seriesKeyOf(s.labels()) != sk {
+			if st.goneAtSnapRestart[sk] {
+				// Known-finding class: the series was evicted before a restart from a memory snapshot;
+				// the snapshot holds no trace of it and the WAL before the snapshot is not read, so the
+				// last series id restarts below its reference while its WAL records still exist.
+				return vx.Failf("evicted-series-ref-reissued-after-snapshot-restart", "reference %d returned for %s (evicted before a restart from a memory snapshot) now resolves to %s: an append with the outdated reference goes to the other series", ref, sk, s.labels())
+			}
 			return vx.Failf("series-ref-resolves-to-other-labels", "reference %d returned for %s resolves to %s", ref, sk, s.labels())
 		}
 	}
@@ -150,17 +169,7 @@ func TestVerifC22(t *testing.T) {
 		cfg   string
 		depth int
 	}
-	plans := vx.Pick(r, []plan{{"base", 3}, {"faststart", 3}}, []plan{{"base", 4}, {"faststart", 4}, {"ooo+faststart", 4}, {"faststart", 5}, {"base", 5}})
-	for _, p := range plans {
-		if r.Expired() {
-			r.NotExhaustive("deadline before plan " + p.cfg)
-			break
-		}
-		name := p.cfg + "@c22"
-		res := r.BFS(name, func() vx.Sys { return c22New(r, cfgs[p.cfg], name) }, p.depth)
-		t.Logf("C22 %s depth %d: states=%d transitions=%d", name, p.depth, res.States, res.Transitions)
-	}
-	// search from non-initial states: the highest reference belongs to a series that has an m-mapped
+	// FIRST (cheap and targeted; the deadline must not cut it off): search from non-initial states: the highest reference belongs to a series that has an m-mapped
 	// chunk and was evicted / garbage-collected before a restart
 	starts := [][]string{
 		{"app/s1/F+1/f", "app/s2/F+1/f", "app/s2/F+160/f", "mmap", "app/s2/F+1/st", "staleevict", "reopen"},
@@ -179,7 +188,7 @@ func TestVerifC22(t *testing.T) {
 		res := r.BFSFrom(name, func() vx.Sys { return c22New(r, cfgs["base"], name) }, starts[len(starts)-1:], 1)
 		t.Logf("C22 %s: states=%d transitions=%d", name, res.States, res.Transitions)
 	}
-	for _, cn := range vx.Pick(r, []string{"faststart+snap", "faststart"}, []string{"faststart+snap", "faststart", "base", "ooo+faststart"}) {
+	for _, cn := range vx.Pick(r, []string{"faststart+snap", "faststart", "snap"}, []string{"faststart+snap", "faststart", "snap", "base", "ooo+faststart"}) {
 		if r.Expired() {
 			r.NotExhaustive("deadline before the non-initial-state search of " + cn)
 			break
@@ -187,6 +196,16 @@ func TestVerifC22(t *testing.T) {
 		name := cn + "@c22+starts"
 		res := r.BFSFrom(name, func() vx.Sys { return c22New(r, cfgs[cn], name) }, starts, vx.Pick(r, 2, 3))
 		t.Logf("C22 %s: states=%d transitions=%d", name, res.States, res.Transitions)
+	}
+	plans := vx.Pick(r, []plan{{"base", 3}, {"faststart", 3}}, []plan{{"base", 4}, {"faststart", 4}, {"snap", 4}, {"ooo+faststart", 4}, {"faststart", 5}, {"base", 5}})
+	for _, p := range plans {
+		if r.Expired() {
+			r.NotExhaustive("deadline before plan " + p.cfg)
+			break
+		}
+		name := p.cfg + "@c22"
+		res := r.BFS(name, func() vx.Sys { return c22New(r, cfgs[p.cfg], name) }, p.depth)
+		t.Logf("C22 %s depth %d: states=%d transitions=%d", name, p.depth, res.States, res.Transitions)
 	}
 	_ = fmt.Sprint
 }
